@@ -48,7 +48,7 @@ func VerifC18Skip() {
 	perFile := func(fx []frEffect, i int) (out []frEffect) {
 		for _, x := range fx {
 			// observable effects only: what is written, printed, diffed or described
-			if x.file == i && (x.kind == "write" || x.kind == "diff" || x.kind == "stdout" || x.kind == "stderr") {
+			if x.file == i && (x.kind == "write" || x.kind == "fsmut" || x.kind == "diff" || x.kind == "stdout" || x.kind == "stderr") {
 				out = append(out, x)
 			}
 		}
